@@ -358,6 +358,10 @@ def finish_c10(ctx, res, cf):
         if not ok:
             res.add(Finding('C10', 'C10.f', 'R-AGREE', lk.file, lk.qualname, c0.lineno, '%s=%s' % (kw, norm(v) if v is not None else 'missing'),
                             'the lookup helper does not forward %s unchanged from the lookup properties' % kw))
+    # ---- shared obligations: a filter alternative that cannot be compared is contained where it arises; what lookup lists is fetchable
+    from . import common as _ci
+    _ci.import_clauses(ctx, res, 'C14', ['C14.a'], 'C10', 'C10.h', 'R-TOTAL', 'the shared matcher answers for every alternative on its own (no comparison failure escapes an alternative)', floor=4)
+    _ci.import_clauses(ctx, res, 'C15', ['C15.e'], 'C10', 'C10.i', 'R-ORDER', 'S3: the object a lookup lists is written only together with (after) the fetchable object', floor=2)
     # ---- C10.f lookups read the store on every call: no per-object memory in the reading methods
     from . import common
     cf = res.clause('C10.f', 'R-PROV', 'lookup / fetch methods of the cassettes keep no state between calls', floor=3)
